@@ -38,6 +38,7 @@ KINDS = ["http-abort", "http-400-abort", "refused-continue", "params-raise", "pa
          "prepare-task-raises", "prepare-handler-raises", "worker-dies", "cancel", "timeout-abort", "http-status-abort", "rc-store-raises", "store-down"]
 REQUIRED_FEATURES = {"kind:" + k: 2 for k in KINDS}
 REQUIRED_FEATURES["driver-profiling-on"] = 5
+REQUIRED_FEATURES["own-actor-system:hangs"] = 3
 BUDGET = {"quick": {"cases": 1500, "seconds": 34}, "thorough": {"cases": 40000, "seconds": 700}}
 EXHAUSTIVE_WHOLE = False
 
@@ -77,6 +78,12 @@ def base_cases():
             {"tasks": [R("raw", {"operation-type": "raw-request", "path": "/_verif/raw", "method": "GET"})]},
             # asks with HEAD whether the index exists before deleting it: a HEAD answered with an error status is a failed request, too
             {"tasks": [R("delete", {"operation-type": "delete-index", "index": "idx", "only-if-exists": True})]}]),
+        # a task that tolerates non-fatal response errors (ignore-response-error-level) runs in the same worker, listed before a task that does
+        # not: under --on-error=abort a failed request of the second one still fails the race
+        dict(common, seed=106, cores=1, hosts=["localhost"], elements=[
+            {"parallel": True, "tasks": [T("lenient", 1, warmup_iterations=0, iterations=2, ignore_response_error_level="non-fatal"),
+                                         T("strict", 2, warmup_iterations=0, iterations=2)]},
+            {"tasks": [T("after", 1, warmup_iterations=0, iterations=1)]}]),
         # the schedule and delay profile under which a BenchmarkComplete overtook the bounced failure notification of race control's
         # TaskFinished handler (found by the thorough tier, repaired in /repo d77538d); only the race-control store faults are enumerated here
         json.load(open(os.path.join(os.path.dirname(__file__), "c09_base_overtake.json"))),
@@ -318,6 +325,8 @@ def run_faulted(ctx, case, fault, problems, base_steps=None):
     inj = Injector(fault)
     on_error = "abort" if fault["kind"] in ("http-abort", "http-400-abort", "timeout-abort", "http-status-abort") else "continue"
     run_case = dict(case, on_error=on_error, wall_deadline=_t.monotonic() + max(15.0, ctx.time_left() + 10.0))
+    if fault.get("own_actor_system"):
+        run_case["own_actor_system"] = fault["own_actor_system"]
     if base_steps:
         # a faulted race has no reason to need many more kernel events than its fault-free twin (waiting for a dead worker costs one
         # driver tick per virtual second until the stall horizon): 40x is the livelock bound
@@ -376,14 +385,21 @@ def points_for(case, base_tr, rng, exhaustive):
     for j in req_points:
         e = logical[j]
         idx = runs[e["run"]]["index_in_task"]
+        lenient = any(t.get("ignore_response_error_level") for el in case["elements"] for t in el["tasks"] if t["name"] == e["task"])
         for kind in ("http-abort", "http-400-abort", "timeout-abort", "refused-continue", "params-raise", "runner-keyerror", "runner-exception"):
             if not exhaustive and rng.random() < 0.6:
                 continue
+            if lenient and kind in ("http-abort", "http-400-abort", "timeout-abort"):
+                continue  # tolerated by that task's own configuration: no failure in the statement's sense
             if any(t.get("real_op") for el in case["elements"] for t in el["tasks"] if t["name"] == e["task"]):
                 # rally's own runners get the persistent fault family below: a fault that hits one attempt only is, behind runner.Retry with
                 # retries > 0, recovered by design and no failure at all; the other kinds live in the harness's runner / parameter source
                 continue
             faults.append({"kind": kind, "task": e["task"], "phys_client": e["client"], "client": idx, "ordinal": e["ordinal"]})
+            if (j + len(faults)) % 7 == 3:
+                # rally runs on an actor system it started itself and has to shut down afterwards - cleanly, or with a load generator that hangs
+                # and keeps the system alive past the shutdown timeout: the failure of the race must survive that, too
+                faults.append({"kind": kind, "task": e["task"], "phys_client": e["client"], "client": idx, "ordinal": e["ordinal"], "own_actor_system": "hangs" if j % 2 else "clean"})
             if (j + len(faults)) % 5 == 0:
                 # the same fault with the rarely used driver profiling switched on (every executor runs inside AsyncProfiler)
                 faults.append({"kind": kind, "task": e["task"], "phys_client": e["client"], "client": idx, "ordinal": e["ordinal"], "profiling": True})
@@ -444,14 +460,14 @@ def run_shard(ctx):
         seen_kinds = set()
         for fault in faults:
             item = (bi, case, fault, base_tr.kernel.steps)
-            key = (fault["kind"], bool(fault.get("profiling")))
+            key = (fault["kind"], bool(fault.get("profiling")), fault.get("own_actor_system"))
             if key not in seen_kinds:
                 seen_kinds.add(key)
                 head.append(item)
             else:
                 work.append(item)
     # all profiling firsts after the plain firsts, so that the very first items cover the kinds
-    head.sort(key=lambda it: (bool(it[2].get("profiling")), it[0]))
+    head.sort(key=lambda it: (bool(it[2].get("profiling")) or bool(it[2].get("own_actor_system")), it[0]))
     for wi, (bi, case, fault, steps) in enumerate(head + work):
         if wi % ctx.nshards != ctx.shard:
             continue
@@ -483,6 +499,8 @@ def one_fault(ctx, case, fault, origin, base_steps=None):
     feats = {"kind:" + fault["kind"], "origin:" + origin}
     if fault.get("profiling"):
         feats.add("driver-profiling-on")
+    if fault.get("own_actor_system"):
+        feats.add("own-actor-system:" + fault["own_actor_system"])
     if tr.budget:
         k = tr.kernel
         if k.budget_reason == "steps" and inj.was_fired and not inj.too_late and base_steps and k.max_steps >= 10 * base_steps and tr.benchmark_complete_sent_at is None:
